@@ -67,7 +67,10 @@ def vhm_model_program(rng, iterators=False):
 VHM_FIXED = [({'mode': 'll', 'cap': '128', 'hash': 'const', 'init': '1.2.3.4.5.6', 'xoff': '0000'}, [['del 5', 'ext 6', 'ins 5 50'], ['get 4', 'get 5'], ['get 6', 'del 2']]),
              ({'mode': 'll', 'cap': '128', 'hash': 'const', 'init': '1.2.3', 'xoff': '0000'}, [['ins 4 40', 'ins 5 50', 'del 4'], ['getins 4 41', 'get 5'], ['ext 1', 'get 4']])]
 VHMIT_FIXED = [({'mode': 'll', 'cap': '128', 'hash': 'const', 'init': '1.2.3.4.5.6', 'xoff': '0000'}, [['itf 5', 'ite', 'itn', 'itr'], ['get 4', 'get 6'], ['get 5', 'ins 5 50']]),
-               ({'mode': 'll', 'cap': '128', 'hash': 'const', 'init': '1.2.3.4', 'xoff': '0000'}, [['itb', 'itn', 'ite', 'itd', 'itr'], ['del 2', 'get 4'], ['ins 5 50']])]
+               ({'mode': 'll', 'cap': '128', 'hash': 'const', 'init': '1.2.3.4', 'xoff': '0000'}, [['itb', 'itn', 'ite', 'itd', 'itr'], ['del 2', 'get 4'], ['ins 5 50']]),
+               # ++ through the array into the extension chain 6 -> 5 -> 4, then erase(iterator) of an item reached from its predecessor item
+               ({'mode': 'll', 'cap': '128', 'hash': 'const', 'init': '1.2.3.4.5.6', 'xoff': '0000'}, [['itb', 'itn', 'itn', 'itn', 'itn', 'ite', 'itd', 'itr'], ['get 6', 'get 4'], ['get 5']]),
+               ({'mode': 'll', 'cap': '128', 'hash': 'const', 'init': '1.2.3.4.5.6', 'xoff': '0000'}, [['itf 6', 'itn', 'itn', 'ite', 'itr', 'itb', 'itn', 'itr'], ['get 6', 'get 5']])]
 
 def vhm_correspondence(ctx, model, harness, cases, per_case, label):
     """like xvlib.correspondence, with the xoff probe per case; returns the same statistics dict"""
